@@ -124,6 +124,9 @@ func envInt(name string, def int64) int64 {
 
 // Main is called from TestMain of a property package.
 func Main(m *testing.M, prop, level string) {
+	if os.Getenv(probeEnv) != "" {
+		probeChild()
+	}
 	st.prop = prop
 	st.level = level
 	st.tier = os.Getenv("VERIF_TIER")
@@ -364,6 +367,16 @@ func finish(code int) {
 	}
 	cov["evaluations"] = st.evals
 	cov["distinct_nontrivial"] = int64(len(st.distinct)) + st.ntExtra
+	cov["nontrivial_distinct_by_construction"] = st.ntExtra
+	cov["nontrivial_distinct_by_hash"] = int64(len(st.distinct))
+	if hp := os.Getenv("VERIF_HASHES"); hp != "" {
+		// sharded thorough run: dump the hashes so that the driver can count distinct cases across shards
+		buf := make([]byte, 0, 8*len(st.distinct))
+		for h := range st.distinct {
+			buf = append(buf, byte(h), byte(h>>8), byte(h>>16), byte(h>>24), byte(h>>32), byte(h>>40), byte(h>>48), byte(h>>56))
+		}
+		_ = os.WriteFile(hp, buf, 0o644)
+	}
 	cov["rule"] = st.rule
 	if len(st.samples) == 0 {
 		st.samples = []any{}
@@ -394,7 +407,11 @@ func finish(code int) {
 	if !replay {
 		_ = os.MkdirAll(filepath.Join(Root(), "evidence"), 0o755)
 		b, _ := json.MarshalIndent(evd, "", " ")
-		_ = os.WriteFile(filepath.Join(Root(), "evidence", st.prop+".json"), append(b, '\n'), 0o644)
+		evPath := os.Getenv("VERIF_EVIDENCE")
+		if evPath == "" {
+			evPath = filepath.Join(Root(), "evidence", st.prop+".json")
+		}
+		_ = os.WriteFile(evPath, append(b, '\n'), 0o644)
 	}
 
 	res := map[string]any{"property": st.prop, "test_exit": code, "infra": st.infra}
@@ -479,7 +496,7 @@ func Journal(check string, c any) {
 	}
 	if journalFile == nil {
 		_ = os.MkdirAll(filepath.Join(Root(), "out"), 0o755)
-		f, err := os.Create(filepath.Join(Root(), "out", st.prop+".current.json"))
+		f, err := os.Create(filepath.Join(Root(), "out", st.prop+os.Getenv("VERIF_SHARD_SUFFIX")+".current.json"))
 		if err != nil {
 			return
 		}
